@@ -192,6 +192,13 @@ def generate(rng, tier):
         if rng.random() < 0.6:
             ops.append({"op": "brighter", "seed": rng.getrandbits(32),
                         "kind": rng.choice(["uniform", "sparse", "cross", "huge"])})
+    if rng.random() < 0.3:
+        # another Detector with other settings (and another image shape) is used in between, and a
+        # call that fails half way: neither may leave anything behind that the next exposure sees
+        pos = rng.randint(1, len(ops))
+        ops.insert(pos, {"op": "decoy", "bits": rng.choice(_BITS), "gain": rng.choice([0.5, 3.0, 7.0]),
+                         "shape": [rng.randint(1, 6), rng.randint(1, 6)], "poison": rng.random() < 0.5})
+        ops.insert(pos + 1, {"op": "again"})
     for _ in range(rng.randint(0, 3)):
         c = rng.random()
         if c < 0.5:
@@ -427,6 +434,28 @@ def execute(plan):
             reconfigured = True
             ev["out"] = "ok"
             ev["set"] = sorted(op["set"])
+        elif k == "decoy":
+            g = np.random.Generator(np.random.PCG64(op["bits"] * 1000 + op["shape"][0]))
+            other = D.Detector(dark_current=3.0, read_noise=2.0, bias=20.0, fwc=5e4, conversion_gain=op["gain"],
+                               bits=op["bits"], exposure_time=0.7, prnu=None, dcnu=None)
+            keep_calls, keep_exp = sim.calls, sim.exposure
+            try:
+                other.expose(g.random(tuple(op["shape"])) * 1e3, frames=2)
+                if op["poison"]:
+                    try:
+                        other.expose(-np.ones(tuple(op["shape"])), frames=1)      # invalid: negative flux
+                    except Exception:
+                        pass
+                    if shared["det"] is not None:
+                        try:
+                            shared["det"].expose(np.ones((2, 2, 2, 2)) * -1.0)      # invalid for the shared one too
+                        except Exception:
+                            pass
+                ev["out"] = "ok"
+            except Exception as e:
+                ev["out"] = "raised:" + type(e).__name__
+            sim.calls, sim.exposure = keep_calls, keep_exp      # the decoy's draws do not shift the run's draws
+            bump(faults, "decoy_detector_used")
         elif k == "expose":
             try:
                 dn1 = expose(img, False)
